@@ -150,6 +150,14 @@ def lists_of_for(body, var):
     return res
 
 
+def last_full_window_index(body, what):
+    """`if index <= N` or the equivalent `if index < N+1`"""
+    m = re.search(r"if index (<=|<) ((?:\w+::)*\w+)", body)
+    need(m, what)
+    v = int_value(m.group(2), what)
+    return v if m.group(1) == "<=" else v - 1
+
+
 def zlist(xs):
     return "[" + "; ".join(str(x) for x in xs) + "]%Z"
 
@@ -534,9 +542,7 @@ def gen_consts():
     m = re.search(r"Score::MIN \+ ((?:\w+::)*\w+) \+ real_depth as Score", body)
     need(m, "mate offset of the main search")
     const("MATE_OFFSET_NODE", int_value(m.group(1), "constant"))
-    m = re.search(r"if index <= ((?:\w+::)*\w+)", body)
-    need(m, "full-window move count of the main search")
-    const("PVS_FULL_WINDOW_LAST_INDEX", int_value(m.group(1), "constant"))
+    const("PVS_FULL_WINDOW_LAST_INDEX", last_full_window_index(body, "full-window move count of the main search"))
     m = re.search(r"\(remaining_depth as f64\)\.powf\(([\d.]+)\)", body)
     need(m and float(m.group(1)) == 3.0, "history bonus exponent")
     const("HISTORY_BONUS_EXPONENT", 3)
@@ -574,9 +580,7 @@ def gen_consts():
     need(m, "mate offset of quiescence")
     const("MATE_OFFSET_QUIESCENCE", int_value(m.group(1), "constant"))
     body = fn_body(search, "get_best_move_entry")
-    m = re.search(r"if index <= ((?:\w+::)*\w+)", body)
-    need(m, "full-window move count of the root")
-    const("ROOT_FULL_WINDOW_LAST_INDEX", int_value(m.group(1), "constant"))
+    const("ROOT_FULL_WINDOW_LAST_INDEX", last_full_window_index(body, "full-window move count of the root"))
     body = fn_body(search, "get_best_move_until_stop")
     m = re.search(r"best_score > Score::MAX - ((?:\w+::)*\w+)", body)
     need(m, "upper exit threshold")
@@ -584,8 +588,11 @@ def gen_consts():
     m = re.search(r"best_score < Score::MIN \+ ((?:\w+::)*\w+)", body)
     need(m, "lower exit threshold")
     const("EXIT_BAND_LOW", int_value(m.group(1), "lower exit threshold"))
-    need(re.search(r"max_depth\.is_some_and\(\|d\| d <= depth\)", body), "depth-limit exit test")
-    need(re.search(r"for depth in starting_depth\.\.=u8::MAX", body), "iteration range")
+    # equivalent spellings of "the limit is reached" and of the iteration range are accepted; anything else is a changed shape
+    need(re.search(r"max_depth\.is_some_and\(\|(\w+)\| (?:\1 <= depth|depth >= \1)\)", body)
+         or re.search(r"max_depth\.map_or\(false, \|(\w+)\| (?:\1 <= depth|depth >= \1)\)", body)
+         or re.search(r"matches!\(max_depth, Some\((\w+)\) if (?:\1 <= depth|depth >= \1)\)", body), "depth-limit exit test")
+    need(re.search(r"for depth in starting_depth\.\.=(?:u8::MAX|255(?:u8)?)\b", body), "iteration range")
     # move_score constants
     body = fn_body(search, "move_score")
     m = re.search(r"Move::Promotion \{ new_piece, \.\. \} => ((?:\w+::)*\w+) - new_piece\.material_value\(\) as u32 \+ ((?:\w+::)*\w+)", body)
